@@ -94,16 +94,24 @@ Section Verify.
   Lemma is_F_iff t : is_F t = true <-> t = F.
   Proof. destruct t; simpl; split; congruence. Qed.
 
+  (* a pair of secondary-kind tests is exact for the claim in [data] *)
+  Definition kinds_exact (plain_ok vrf_ok : N -> bool) (c : cfg) (data : list byte) : Prop :=
+    match decode_predigest data with
+    | Some (SecPlain _ _) => plain_ok (allowed c) = (allowed c =? 1)
+    | Some (SecVRF _ _ _ _) => vrf_ok (allowed c) = (allowed c =? 2)
+    | _ => True
+    end.
+
   (* verifyPreRuntimeDigest succeeds, and the author's key is usable, exactly when the claim is
      well-formed, in range and gives the right to produce *)
-  Lemma verify_pre_ok c data d : allowed c <= 2 ->
-    (verify_pre c data = Ok d /\ key_valid (pd_idx d) = true) <->
+  Lemma verify_pre_gen_ok plain_ok vrf_ok c data d : kinds_exact plain_ok vrf_ok c data ->
+    (verify_pre_gen key_valid below vrf_verify plain_ok vrf_ok c data = Ok d /\ key_valid (pd_idx d) = true) <->
     (decode_predigest data = Some d /\ pd_idx d < n_auth c /\ key_valid (pd_idx d) = true /\
      right_to_produce c d).
   Proof.
-    intros Ha. destruct (allowed_kinds _ Ha) as [Ep Ev].
-    unfold Model.verify_pre, verify_pre_gen. rewrite Ep, Ev.
-    destruct (decode_predigest data) as [d0|]; [|split; [intros [H _]; discriminate|intros [H _]; discriminate]].
+    unfold kinds_exact, verify_pre_gen.
+    destruct (decode_predigest data) as [d0|]; [|intros _; split; [intros [H _]; discriminate|intros [H _]; discriminate]].
+    intros Hk.
     destruct (N.leb_spec (n_auth c) (pd_idx d0)) as [Hn|Hn].
     { split; [intros [H _]; discriminate|]. intros (E & Hlt & _). inversion E; subst. lia. }
     destruct d0 as [i s o p|i s|i s o p]; cbn [pd_idx] in *; unfold Model.right_to_produce.
@@ -116,14 +124,14 @@ Section Verify.
       split.
       + intros [H _]. inversion H; subst. cbn. repeat split; assumption.
       + intros (E & _ & _ & _). inversion E; subst. split; [reflexivity|exact K].
-    - destruct (N.eqb_spec (allowed c) 1) as [A|A]; cbn [negb].
+    - rewrite Hk. destruct (N.eqb_spec (allowed c) 1) as [A|A]; cbn [negb].
       2:{ split; [intros [H _]; discriminate|]. intros (E & _ & _ & H). inversion E; subst. destruct H; congruence. }
       destruct (author_is c s i) eqn:Au; cbn [negb].
       2:{ split; [intros [H _]; discriminate|]. intros (E & _ & _ & H). inversion E; subst. destruct H; congruence. }
       split.
       + intros [H K]. inversion H; subst. cbn in *. repeat split; assumption.
       + intros (E & _ & K & _). inversion E; subst. split; [reflexivity|exact K].
-    - destruct (N.eqb_spec (allowed c) 2) as [A|A]; cbn [negb].
+    - rewrite Hk. destruct (N.eqb_spec (allowed c) 2) as [A|A]; cbn [negb].
       2:{ split; [intros [H _]; discriminate|]. intros (E & _ & _ & H). inversion E; subst. destruct H; congruence. }
       destruct (key_valid i) eqn:K; cbn [negb].
       2:{ split; [intros [H _]; discriminate|]. intros (E & _ & K' & _). inversion E; subst. cbn in K'. congruence. }
@@ -136,29 +144,52 @@ Section Verify.
       + intros (E & _ & _ & _). inversion E; subst. split; [reflexivity|exact K].
   Qed.
 
-  Theorem accept_iff c (h : header R) : allowed c <= 2 ->
-    (verify c h = Ok tt <-> authorised c h).
+  Notation verify_gen := (verify_gen R key_valid below vrf_verify seal_verify equiv).
+
+  Lemma accept_iff_gen plain_ok vrf_ok c (h : header R) :
+    (forall eng data rest, h_digest h = PreRuntime eng data :: rest -> kinds_exact plain_ok vrf_ok c data) ->
+    (verify_gen plain_ok vrf_ok c h = Ok tt <-> authorised c h).
   Proof.
-    intros Ha. split.
-    - unfold Model.verify, verify_gen.
+    intros Hk. split.
+    - unfold Model.verify_gen.
       destruct (Nat.ltb_spec (length (h_digest h)) 2) as [L|L]; [discriminate|].
       destruct (hd RuntimeEnvUpdated (h_digest h)) as [eng data| | |] eqn:H1; try discriminate.
       destruct (last (h_digest h) RuntimeEnvUpdated) as [| |seng sig|] eqn:H2; try discriminate.
-      destruct (verify_pre_gen key_valid below vrf_verify plain_allowed vrf_allowed c data) as [d|e| |] eqn:P;
+      destruct (verify_pre_gen key_valid below vrf_verify plain_ok vrf_ok c data) as [d|e| |] eqn:P;
         try discriminate.
       destruct (key_valid (pd_idx d)) eqn:K; cbn [negb]; [|discriminate].
       destruct (seal_verify (pd_idx d) (h_rest h) (removelast (h_digest h)) sig) eqn:S; try discriminate.
       destruct (equiv (pd_idx d) (pd_slot d)) eqn:Q; try discriminate. intros _.
       destruct (digest_shape _ _ _ _ _ L H1 H2) as [mid E].
-      destruct (proj1 (verify_pre_ok c data d Ha) (conj P K)) as (D1 & D2 & D3 & D4).
+      destruct (proj1 (verify_pre_gen_ok plain_ok vrf_ok c data d (Hk _ _ _ E)) (conj P K)) as (D1 & D2 & D3 & D4).
       exists eng, data, mid, seng, sig, d. repeat split; try assumption.
       rewrite E in S. destruct (shape_facts eng data mid seng sig) as (_ & _ & _ & Rl).
       cbv zeta in Rl. rewrite Rl in S. exact S.
     - intros (eng & data & mid & seng & sig & d & E & D1 & D2 & D3 & D4 & S & Q).
-      destruct (proj2 (verify_pre_ok c data d Ha) (conj D1 (conj D2 (conj D3 D4)))) as [P K].
+      destruct (proj2 (verify_pre_gen_ok plain_ok vrf_ok c data d (Hk _ _ _ E)) (conj D1 (conj D2 (conj D3 D4)))) as [P K].
       destruct (shape_facts eng data mid seng sig) as (F1 & F2 & F3 & F4). cbv zeta in *.
-      unfold Model.verify, verify_gen. rewrite E, F1, F2, F3, F4.
-      unfold Model.verify_pre in P. rewrite P, K. cbn [negb]. rewrite S, Q. reflexivity.
+      unfold Model.verify_gen. rewrite E, F1, F2, F3, F4.
+      rewrite P, K. cbn [negb]. rewrite S, Q. reflexivity.
+  Qed.
+
+  Theorem accept_iff c (h : header R) : allowed c <= 2 ->
+    (verify c h = Ok tt <-> authorised c h).
+  Proof.
+    intros Ha. apply accept_iff_gen. intros eng data rest _. unfold kinds_exact.
+    destruct (allowed_kinds _ Ha) as [Ep Ev].
+    destruct (decode_predigest data) as [[| |]|]; auto.
+  Qed.
+
+  (* the pinned tree's verification is right outside the guard of the finding *)
+  Theorem accept_iff_prefix_partial c (h : header R) : allowed c <= 2 ->
+    wrong_kind c (h_digest h) = false ->
+    (verify_prefix R key_valid below vrf_verify seal_verify equiv c h = Ok tt <-> authorised c h).
+  Proof.
+    intros Ha Hg. apply accept_iff_gen. intros eng data rest E. unfold kinds_exact.
+    unfold wrong_kind in Hg. rewrite E in Hg. unfold any_secondary.
+    destruct (decode_predigest data) as [[| |]|]; auto.
+    - apply N.eqb_neq in Hg. assert (allowed c = 0 \/ allowed c = 1) as [A|A] by lia; rewrite A; reflexivity.
+    - apply N.eqb_neq in Hg. assert (allowed c = 0 \/ allowed c = 2) as [A|A] by lia; rewrite A; reflexivity.
   Qed.
 
   Lemma right_to_produce_reflect c d : right_to_produce_b c d = true <-> right_to_produce c d.
